@@ -14,6 +14,9 @@ CHECKS = {
  "C05": (MC, "stateless exhaustive exploration of operation histories x handler behaviours on the real EventMixin (E-seq, deviation-bounded), reference-model oracle",
          "Every history of <=3 (quick) / <=4 (thorough) subscribe/unsubscribe/raise/drop operations with <=2 non-default handler behaviours (incl. re-entrant subscribe/unsubscribe/raise) is executed on the real revent code and compared online with a reference model of subscriptions; a coverage statement over that bound, not a sample.",
          "Trusts the reference model in mc/props/c05.py; handler identities treated as interchangeable; single-threaded.", "DESIGN.md 4 C05"),
+ "C13": (MC, "exhaustive enumeration of request histories sent as bytes through the real switch stack, replies decoded by an independent wire decoder and compared with a reference model",
+         "All sequences of <=3 (quick) / <=4 (thorough) requests over 36 controller-to-switch messages (every message and stats type, valid and invalid arguments), each history run message-by-message and as one read, plus a covering history with every ordered pair; every reply is checked for count, xid, order, type/code and state-dependent data.",
+         "Trusts mc/refs/ofwire.py (spec transcription) and the 20-line state model; error codes asserted only where the specification names one; error data compared on header+length only.", "DESIGN.md 4 C13"),
 }
 
 PENDING_REASON = "check under construction in this round (design in DESIGN.md section 4); not claimed until its harness is committed and silent on the unchanged tree"
